@@ -24,13 +24,14 @@ set_log_level("ERROR")
 from netqasm.sdk.classical_communication.message import StructuredMessage  # noqa: E402
 from netqasm.sdk.classical_communication.thread_socket import socket_hub as SH  # noqa: E402
 from netqasm.sdk.classical_communication.thread_socket.socket import ThreadSocket  # noqa: E402
+from netqasm.sdk.classical_communication.thread_socket.broadcast_channel import ThreadBroadcastChannel  # noqa: E402
 
 HUB_FILE = SH.__file__
 SHARED = ("_open_sockets", "_remote_sockets", "_messages", "_recv_callbacks", "_conn_lost_callbacks", "_lock")
 METHODS = ("connect", "_add_callbacks", "is_connected", "disconnect", "_wait_for_remote", "send", "recv")
 LOCK_KINDS = ("sLock", "rLock", "rLock2", "dLock", "xLock")
 # loop heads: reaching them again without any change of shared state is a spin iteration
-SPIN_KINDS = ("cWaitOpen", "rLock")
+SPIN_KINDS = ("cWaitOpen", "rLock", "wCheck")
 
 
 class TieBroken(Exception):
@@ -188,11 +189,17 @@ def key_json(key):
     return [int(key[0][1:]), int(key[1][1:]), key[2]]
 
 
+HEADER = 7      # header of every structured message the harness sends
+
+
 def decode(msg):
+    """canonical form of what travels through a channel (the model's `Wire`): a non-negative int for a plain
+    string ("" = 0, "m<id>" = id), [header, payload] for a string that json-loads to a structured message"""
     if isinstance(msg, StructuredMessage):
-        return int(msg.payload)
+        return [int(msg.header), int(msg.payload)]
     if isinstance(msg, str) and msg.startswith("{"):
-        return int(json.loads(msg)["payload"])
+        d = json.loads(msg)
+        return [int(d["header"]), int(d["payload"])]
     if isinstance(msg, str) and msg.startswith("m"):
         return int(msg[1:])
     if msg == "":
@@ -202,6 +209,13 @@ def decode(msg):
 
 def encode_plain(m):
     return "" if m == 0 else "m%d" % m
+
+
+def op_keys(t, op):
+    """the socket keys (as int triples) an operation of thread t works on"""
+    if op[0] in ("bc", "bs", "br", "brn"):
+        return [(t, r, op[2]) for r in op[-1]]
+    return [(t, op[1], op[2])]
 
 
 class Sock(ThreadSocket):
@@ -230,6 +244,73 @@ class Sock(ThreadSocket):
     def conn_lost_callback(self):
         self._sched.lost_log.append(key_json(self.key))
 
+    # socket-level calls: results and send events are recorded here so that sends issued by a broadcast channel
+    # (one `socket.send` per remote) are observed one by one, like the model's results
+    def _send_common(self, structured, arg, wire):
+        w, s = threading.current_thread(), self._sched
+        kj = key_json(self.key)
+        rk = tuple(key_json(self.remote_key))
+        w.cur_key = kj
+        w.inflight = (rk, wire)
+        ev = {"key": rk, "m": wire, "start": s.clock, "end": None, "ok": False, "path": None, "target": None}
+        w.cur_send = ev
+        try:
+            if structured:
+                ThreadSocket.send_structured(self, arg)
+            else:
+                ThreadSocket.send(self, arg)
+            w.res.append(["sent", kj, wire])
+            ev["ok"] = True
+        except ConnectionError:
+            w.res.append(["connErr", kj])
+            raise
+        except Abort:
+            raise
+        except Exception as e:  # noqa  -- the hub itself failed: a finding, not a harness error
+            w.res.append(["raised", kj, type(e).__name__])
+            s.unexpected.append({"thread": w.tid, "op": "send %s on %s" % (wire, kj),
+                                 "error": "%s: %s" % (type(e).__name__, e)})
+        finally:
+            ev["end"] = s.clock
+            s.sends.append(ev)
+            w.cur_send = None
+            w.inflight = None
+
+    def send(self, msg):
+        self._send_common(False, msg, decode(msg))
+
+    def send_structured(self, msg):
+        self._send_common(True, msg, [int(msg.header), int(msg.payload)])
+
+    def recv(self, *a, **kw):
+        threading.current_thread().cur_key = key_json(self.key)
+        return ThreadSocket.recv(self, *a, **kw)
+
+    def recv_structured(self, *a, **kw):
+        threading.current_thread().cur_key = key_json(self.key)
+        return ThreadSocket.recv_structured(self, *a, **kw)
+
+
+def _sock_factory(app_name, remote_app_name, **kw):
+    """what `BroadcastChannelBySockets.__init__` calls for every remote"""
+    w = threading.current_thread()
+    s = w.sched
+    key = (app_name, remote_app_name, kw.get("socket_id", 0))
+    kj = key_json(key)
+    w.cur_key = kj
+    sock = Sock(s, app_name, remote_app_name, **kw)
+    sock.t_open = s.clock
+    w.socks[(kj[1], kj[2])] = sock
+    s.all_socks.append(sock)
+    s.incarnations.setdefault(tuple(kj), []).append(sock)
+    w.res.append(["connected", kj])
+    return sock
+
+
+class Chan(ThreadBroadcastChannel):
+    """the real ThreadBroadcastChannel, with the recording socket class"""
+    _socket_class = staticmethod(_sock_factory)
+
 
 class Worker(threading.Thread):
     def __init__(self, sched, tid, prog):
@@ -243,6 +324,7 @@ class Worker(threading.Thread):
         self.error = None
         self.res = []
         self.socks = {}
+        self.chans = {}
         self.cur_key = None
         self.cur_op = None
         self.inflight = None
@@ -307,60 +389,83 @@ class Worker(threading.Thread):
             self.park(BARRIER)
             return
         kind, rn, sid = op[0], op[1], op[2]
-        key = (node_name(self.tid), node_name(rn), sid)
-        kj = key_json(key)
-        self.cur_key, self.cur_op, self.held = kj, kind, set()
+        self.cur_op, self.held = ("c" if kind == "bc" else kind), set()
         self.cur_nonblock = kind == "r" and not op[3]
         self.op_start = self.count
-        structured = s.structured(self.tid, rn, sid)
+        if kind == "bc":            # ThreadBroadcastChannel(app, remotes, socket_id=sid): one connect per remote
+            self.chans[sid] = Chan(node_name(self.tid), [node_name(r) for r in op[3]], socket_id=sid)
+            return
+        if kind == "bs":            # channel.send(msg): socket.send for every remote, first ConnectionError aborts
+            self.cur_key = key_json((node_name(self.tid), node_name(op[4][0]), sid))
+            try:
+                self.chans[sid].send(encode_plain(op[3]))
+            except ConnectionError:
+                pass
+            return
+        if kind == "brn":           # channel.recv(block=False): one round of non-blocking receives (after F48)
+            keys = [(node_name(self.tid), node_name(r), sid) for r in op[3]]
+            queued = sum(len(hub_in_use()._messages.get(k, ())) for k in keys)
+            self.cur_key = key_json(keys[0])
+            self.cur_nonblock = True
+            try:
+                name, msg = self.chans[sid].recv(block=False)
+                kj = key_json((node_name(self.tid), name, sid))
+                s.delivery.setdefault(tuple(kj), []).append(("pop", decode(msg)))
+                self.res.append(["gotStr", kj, decode(msg)])
+                s.brn.append({"thread": self.tid, "queued": queued, "got": decode(msg)})
+            except RuntimeError as e:
+                if "No message broadcasted" not in str(e):
+                    raise
+                self.res.append(["empty", key_json(keys[-1])])      # reported after the last remote was polled
+                s.brn.append({"thread": self.tid, "queued": queued, "got": None})
+            return
+        if kind == "br":            # channel.recv(block=True): poll the remotes
+            self.cur_key = key_json((node_name(self.tid), node_name(op[4][0]), sid))
+            name, msg = self.chans[sid].recv(block=bool(op[3]))
+            kj = key_json((node_name(self.tid), name, sid))
+            s.delivery.setdefault(tuple(kj), []).append(("pop", decode(msg)))
+            self.res.append(["gotStr", kj, decode(msg)])
+            return
+        key = (node_name(self.tid), node_name(rn), sid)
+        kj = key_json(key)
+        self.cur_key = kj
+        structured = bool(op[4]) if len(op) > 4 and kind in ("s", "r") else False
         if kind == "c":
-            sock = Sock(s, node_name(self.tid), node_name(rn), socket_id=sid, use_callbacks=bool(op[3]))
-            sock.t_open = s.clock
-            self.socks[(rn, sid)] = sock
-            s.all_socks.append(sock)
-            s.incarnations.setdefault(tuple(kj), []).append(sock)
-            self.res.append(["connected", kj])
+            _sock_factory(node_name(self.tid), node_name(rn), socket_id=sid, use_callbacks=bool(op[3]))
             return
         sock = self.socks.get((rn, sid))
         if sock is None:
             raise RuntimeError("harness: operation on a socket that was never connected")
         if kind == "s":
             m = op[3]
-            self.inflight = (tuple(key_json(sock.remote_key)), m)
-            ev = {"key": tuple(key_json(sock.remote_key)), "m": m, "start": s.clock, "end": None, "ok": False,
-                  "path": None, "target": None}
-            self.cur_send = ev
             try:
                 if structured:
-                    sock.send_structured(StructuredMessage(header="h", payload=m))
+                    sock.send_structured(StructuredMessage(header=HEADER, payload=m))
                 else:
                     sock.send(encode_plain(m))
-                self.res.append(["sent", kj, m])
-                ev["ok"] = True
             except ConnectionError:
-                self.res.append(["connErr", kj, m])
-            except Exception as e:  # noqa  -- the hub itself failed: a finding, not a harness error
-                self.res.append(["raised", kj, type(e).__name__])
-                s.unexpected.append({"thread": self.tid, "op": "send %d on %s" % (m, kj),
-                                     "error": "%s: %s" % (type(e).__name__, e)})
-            ev["end"] = s.clock
-            s.sends.append(ev)
-            self.cur_send = None
-            self.inflight = None
+                pass
         elif kind == "r":
             block = bool(op[3])
-            q0 = len(hub_in_use()._messages.get(key, ()))
+            queue = hub_in_use()._messages.get(key, ())
+            q0 = len(queue)
+            head = decode(queue[0]) if q0 else None      # only the owner pops: the head is stable
             try:
                 msg = sock.recv_structured(block=block) if structured else sock.recv(block=block)
                 m = decode(msg)
                 s.delivery.setdefault(tuple(kj), []).append(("pop", m))
-                self.res.append(["got", kj, m])
+                self.res.append(["gotStructured", kj, m] if structured else ["gotStr", kj, m])
                 out = "got"
             except RuntimeError as e:
                 if "No message to receive" not in str(e):
                     raise
                 self.res.append(["empty", kj])
                 out = "empty"
+            except ValueError as e:     # json.JSONDecodeError: recv_structured popped a string that is no JSON message
+                doc = getattr(e, "doc", None)           # the popped string (consumed, not returned)
+                s.delivery.setdefault(tuple(kj), []).append(("pop", decode(doc) if doc is not None else head))
+                self.res.append(["decodeError", kj])
+                out = "got"
             except IndexError:
                 self.res.append(["crash", kj])
                 out = "crash"
@@ -374,6 +479,9 @@ class Worker(threading.Thread):
             hub_in_use().disconnect(sock)
             sock.t_closed = s.clock
             self.res.append(["disconnected", kj])
+        elif kind == "w":
+            sock.wait()
+            self.res.append(["waited", kj])
         else:
             raise ValueError(op)
 
@@ -438,6 +546,7 @@ class Scheduler:
         self.clock = 0              # number of completed steps
         self.incarnations, self.sends, self.cb_log = {}, [], {}
         self.unexpected = []
+        self.brn = []
         self._structured = set(structured_ids)
         SH._SocketHub._CONNECT_SLEEP_TIME = 0
         SH._SocketHub._RECV_SLEEP_TIME = 0
@@ -460,7 +569,8 @@ class Scheduler:
             return None
         if self.coarse:
             return "barrier" if w.line == BARRIER else ("xLock" if w.line in self.with_lines else "line")
-        return self.line_kind[w.line]
+        k = self.line_kind[w.line]
+        return "wCheck" if k == "sCheck" and w.cur_op == "w" else k
 
     def at_barrier(self, tid):
         w = self.workers[tid]
@@ -493,7 +603,7 @@ class Scheduler:
         ks = lambda coll: sorted(key_json(k) for k in coll)  # noqa
         pcs = []
         for w in self.workers:
-            pcs.append(["fin"] if w.done else [self.line_kind[w.line], w.cur_key])
+            pcs.append(["fin"] if w.done else [self.kind(w.tid), w.cur_key])
         return {
             "ok": ok,
             "open": ks(h._open_sockets), "remote": ks(h._remote_sockets),
@@ -527,6 +637,7 @@ class Scheduler:
             ev["target"] = None
         for w in self.workers:
             w.socks.clear()
+            w.chans.clear()
             w.cur_send = None
         reset_and_check("after a run")
         return final_queues
@@ -555,8 +666,32 @@ def canon_model(snap):
 
 
 def ops_json(prog):
-    # the "toggle use_callbacks" flag of a disconnect is invisible to the hub: the model's disconnect has none
-    return [{op[0]: [int(x) for x in (op[1:3] if op[0] == "d" else op[1:])]} for op in prog]
+    """the endpoint program in the SOCKET-LEVEL operations of Model/ThreadSocket.lean (compiled by the driver)"""
+    out = []
+    for op in prog:
+        k = op[0]
+        if k == "c":
+            out.append({"c": [op[1], op[2], int(op[3])]})
+        elif k == "s":
+            if len(op) > 4 and op[4]:
+                out.append({"ss": [op[1], op[2], HEADER, op[3]]})
+            else:
+                out.append({"s": [op[1], op[2], op[3]]})
+        elif k == "r":
+            out.append({("rs" if len(op) > 4 and op[4] else "r"): [op[1], op[2], int(op[3])]})
+        elif k == "d":       # the "toggle use_callbacks" flag of a disconnect is invisible to the hub
+            out.append({"d": [op[1], op[2]]})
+        elif k == "w":
+            out.append({"w": [op[1], op[2]]})
+        elif k == "bc":
+            out += [{"c": [r, op[2], 0]} for r in op[3]]
+        elif k == "bs":
+            out.append({"bs": [op[2], op[3]] + list(op[4])})
+        elif k == "br":
+            out.append({"br": [op[2], int(op[3])] + list(op[4])})
+        elif k == "brn":
+            out.append({"br": [op[2], 0] + list(op[3])})
+    return out
 
 
 # ------------------------------------------------------------------ running one case
@@ -623,7 +758,7 @@ def run_case(progs, policy, structured_ids=(), max_steps=400, keep_sockets=None)
             "final_queues": final_queues, "delivery": sc.delivery, "cb_store": sc.cb_store,
             "res": [w.res for w in workers], "inflight": [w.inflight for w in workers],
             "nb_seen": [x for w in workers for x in w.nb_seen],
-            "incarnations": incs, "sends": sends, "unexpected": list(sc.unexpected),
+            "incarnations": incs, "sends": sends, "unexpected": list(sc.unexpected), "brn": list(sc.brn),
             "stuck_in_connect": stuck_in_connect, "nb_blocked": nb_blocked, "ever_open_at": ever_open_at,
             "steps_of": [schedule.count(t) for t in range(len(progs))]}
 
@@ -674,8 +809,9 @@ def oracle(case, settle_steps):
     keys = set()
     for t, prog in enumerate(case["progs"]):
         for op in prog:
-            keys.add((t, op[1], op[2]))
-            keys.add((op[1], t, op[2]))
+            for kk in op_keys(t, op):
+                keys.add(kk)
+                keys.add(rkey(kk))
     for k in sorted(keys):
         sender = k[1]
         sent = [r[2] for r in case["res"][sender] if r[0] == "sent" and tuple(r[1]) == rkey(k)] \
@@ -698,6 +834,11 @@ def oracle(case, settle_steps):
         if not ok:
             fails.append({"what": "channel %s: delivered %s + queued %s is not the sent sequence %s "
                                   "(exactly once, in order; message 0 is the empty string \"\")" % (list(k), dl, q, sent), "key": list(k)})
+    for b in case.get("brn", []):
+        if b["queued"] > 0 and b["got"] is None:
+            fails.append({"what": "BroadcastChannel.recv(block=False) reported emptiness although %d message(s) were "
+                                  "queued for thread %d when the call started" % (b["queued"], b["thread"]),
+                          "key": None})
     for u in case.get("unexpected", []):
         fails.append({"what": "thread %d: %s raised %s inside the hub" % (u["thread"], u["op"], u["error"]), "key": None})
     # every message goes to the incarnation of the receiving key that is open while it is sent
@@ -736,8 +877,9 @@ def oracle(case, settle_steps):
     n_conn = {}
     for t, prog in enumerate(case["progs"]):
         for op in prog:
-            if op[0] == "c":
-                n_conn[(t, op[1], op[2])] = n_conn.get((t, op[1], op[2]), 0) + 1
+            if op[0] in ("c", "bc"):
+                for kk in op_keys(t, op):
+                    n_conn[kk] = n_conn.get(kk, 0) + 1
     for tid, kj in case["stuck_in_connect"]:
         peer = tuple(rkey(tuple(kj)))
         if n_conn.get(tuple(kj), 0) > 1 or n_conn.get(peer, 0) > 1:
@@ -1014,7 +1156,7 @@ def _check_cases(cases, driver, summary, settle):
     for c, m in zip(cases, models):
         summary["evaluations"] += 1
         summary["steps"] += len(c["schedule"])
-        n_msgs = sum(1 for r in c["res"] for x in r if x[0] in ("sent", "got"))
+        n_msgs = sum(1 for r in c["res"] for x in r if x[0] in ("sent", "gotStr", "gotStructured"))
         if n_msgs:
             summary["nontrivial"].add(json.dumps([c["progs"], c["schedule"]]))
         for r in c["res"]:
@@ -1025,12 +1167,18 @@ def _check_cases(cases, driver, summary, settle):
         summary["dist"]["threads:%d" % len(c["progs"])] = summary["dist"].get("threads:%d" % len(c["progs"]), 0) + 1
         if c["cb_store"]:
             summary["dist"]["callback-delivery"] = summary["dist"].get("callback-delivery", 0) + 1
-        if c["structured"]:
+        if any(r[0] == "gotStructured" for rs in c["res"] for r in rs):
             summary["dist"]["structured"] = summary["dist"].get("structured", 0) + 1
+        if any(r[0] == "decodeError" for rs in c["res"] for r in rs):
+            summary["dist"]["recv_structured-on-plain-string"] = summary["dist"].get("recv_structured-on-plain-string", 0) + 1
+        if any(op[0] in ("bs", "br") for p in c["progs"] for op in p):
+            summary["dist"]["broadcast"] = summary["dist"].get("broadcast", 0) + 1
+        if any(op[0] == "w" for p in c["progs"] for op in p):
+            summary["dist"]["wait"] = summary["dist"].get("wait", 0) + 1
         if any(sum(1 for o in p if o[0] == "c" and (o[1], o[2]) == (q[1], q[2])) > 1 for p in c["progs"] for q in p
                if q[0] == "c"):
             summary["dist"]["reconnect-history"] = summary["dist"].get("reconnect-history", 0) + 1
-        if any(r[0] in ("sent", "got") and r[2] == 0 for rs in c["res"] for r in rs):
+        if any(r[0] in ("sent", "gotStr") and r[2] == 0 for rs in c["res"] for r in rs):
             summary["dist"]["empty-string-message"] = summary["dist"].get("empty-string-message", 0) + 1
         if "error" in m:
             df = {"step": -1, "why": m["error"]}
@@ -1044,7 +1192,7 @@ def _check_cases(cases, driver, summary, settle):
             summary["n_disagreements_more"] += 1
         for f in oracle(c, settle):
             if len(summary["failures"]) < 5:
-                summary["failures"].append({"what": f["what"], "kf": None, "input": {
+                summary["failures"].append({"what": f["what"], "kf": f.get("kf"), "input": {
                     "progs": c["progs"], "structured": c["structured"], "schedule": c["schedule"], "key": f["key"]}})
             else:
                 summary["n_failures_more"] += 1
@@ -1196,7 +1344,8 @@ def gen_programs(rng, n_nodes=None, max_ops=4):
             other = b if t == a else a
             if rng.random() < 0.55:
                 mid += 1
-                plan[t].append(("s", other, sid, 0 if rng.random() < 0.25 else mid))
+                st = ((min(t, other), max(t, other), sid) in structured) != (rng.random() < 0.06)
+                plan[t].append(("s", other, sid, mid if st else (0 if rng.random() < 0.25 else mid), int(st)))
                 n_send[(other, t, sid)] = n_send.get((other, t, sid), 0) + 1
             else:
                 plan[t].append(("r", other, sid, None))
@@ -1207,7 +1356,10 @@ def gen_programs(rng, n_nodes=None, max_ops=4):
                 k = (t, op[1], op[2])
                 n_recv[k] = n_recv.get(k, 0) + 1
                 block = (not cb.get(k)) and n_recv[k] <= n_send.get(k, 0) and rng.random() < 0.6
-                progs[t].append(("r", op[1], op[2], int(block)))
+                # recv / recv_structured: the channel's kind, now and then the other call (a structured message read
+                # with recv comes back as its JSON string; a plain string read with recv_structured raises)
+                st = ((min(t, op[1]), max(t, op[1]), op[2]) in structured) != (rng.random() < 0.06)
+                progs[t].append(("r", op[1], op[2], int(block), int(st)))
             else:
                 progs[t].append(op)
         mine = [(a, b, sid) for (a, b, sid) in socks if t in (a, b)]
@@ -1223,7 +1375,9 @@ def gen_programs(rng, n_nodes=None, max_ops=4):
                     progs[t].insert(pos2, ("c", other, sid, int(rng.random() < 0.5)))
                     for _ in range(rng.randrange(0, 3)):               # and receives in the new incarnation
                         progs[t].insert(rng.randrange(pos2 + 1, len(progs[t]) + 1), ("r", other, sid, 0))
-    return progs, structured
+                elif rng.random() < 0.15:   # ThreadSocket.wait(): spin until the connection is gone
+                    progs[other].append(("w", t, sid))
+    return progs, []
 
 
 def small_programs():
@@ -1272,6 +1426,34 @@ def history_pairs():
         out.append([a2, [("c", 0, 0, 1), ("d", 0, 0, tog), ("c", 0, 0, 1)]])
         out.append([a2, [("c", 0, 0, 0), ("r", 0, 0, 0), ("d", 0, 0, tog), ("c", 0, 0, 0), ("r", 0, 0, 0)]])
     return out
+
+
+def socket_layer_scenarios():
+    """socket-level programs: mixed plain / structured traffic (matching and mismatching receive calls, wait),
+    and broadcast channels (3 endpoints: send to all, blocking recv polling the remotes)"""
+    mixed = [[("c", 1, 0, 0), ("s", 1, 0, 7, 1), ("s", 1, 0, 5, 0), ("s", 1, 0, 1, 1), ("s", 1, 0, 0, 0), ("w", 1, 0)],
+             [("c", 0, 0, 0), ("r", 0, 0, 1, 1), ("r", 0, 0, 1, 0), ("r", 0, 0, 1, 0), ("r", 0, 0, 1, 1), ("r", 0, 0, 0, 1),
+              ("d", 0, 0, 0)]]
+    bcast3 = [[("bc", -1, 0, [1, 2]), ("bs", -1, 0, 10, [1, 2]), ("bs", -1, 0, 11, [1, 2]), ("br", -1, 0, 1, [1, 2])],
+              [("bc", -1, 0, [0, 2]), ("br", -1, 0, 1, [0, 2]), ("br", -1, 0, 1, [0, 2])],
+              [("bc", -1, 0, [0, 1]), ("br", -1, 0, 1, [0, 1]), ("bs", -1, 0, 20, [0, 1]), ("br", -1, 0, 1, [0, 1])]]
+    # a broadcast that hits a remote which has already gone: ConnectionError aborts the remaining remotes
+    bgone = [[("bc", -1, 0, [1, 2]), ("bs", -1, 0, 10, [1, 2]), ("bs", -1, 0, 11, [1, 2])],
+             [("c", 0, 0, 0), ("d", 0, 0, 0)],
+             [("c", 0, 0, 1)]]
+    bcast2 = [[("bc", -1, 0, [1]), ("bs", -1, 0, 3, [1]), ("br", -1, 0, 1, [1])],
+              [("bc", -1, 0, [0]), ("brn", -1, 0, [0]), ("br", -1, 0, 1, [0]), ("bs", -1, 0, 4, [0])]]
+    # non-blocking broadcast receives: one round over the remotes, the second remote may be the one with a message
+    bnb3 = [[("bc", -1, 0, [1, 2]), ("brn", -1, 0, [1, 2]), ("brn", -1, 0, [1, 2]), ("brn", -1, 0, [1, 2])],
+            [("bc", -1, 0, [0, 2]), ("bs", -1, 0, 5, [0, 2])],
+            [("bc", -1, 0, [0, 1]), ("bs", -1, 0, 6, [0, 1]), ("brn", -1, 0, [0, 1])]]
+    return {"mixed": mixed, "bcast3": bcast3, "bgone": bgone, "bcast2": bcast2, "bnb3": bnb3}
+
+
+def f48_case():
+    """F48 (fixed): the non-blocking broadcast receive used to skip its polling loop (`while block:`)"""
+    return [[("bc", -1, 0, [1]), ("bs", -1, 0, 3, [1]), ("bs", -1, 0, 4, [1])],
+            [("bc", -1, 0, [0]), ("r", 0, 0, 1, 0), ("brn", -1, 0, [0])]]
 
 
 def f20_case():
